@@ -1,13 +1,13 @@
-\* C19 thorough: one comment of every kind at every boundary
+\* C19 thorough: one comment of every kind at every boundary (a comment must not change the tree)
 SPECIFICATION LSpec
 CONSTANTS
   Foci = {"prec"}
   Sizes <- SmallSizes
-  LFoci = {"stmt", "decl", "class", "pairs", "samples"}
-  Bases = {"canon", "nl"}
+  LFoci = {"stmt", "fstmt", "decl", "class", "pairs", "samples"}
+  Bases = {"canon"}
   MaxGap = 0
   MaxCm = 1
   CmKinds = {"//", "/*", "/*o", "#"}
   MutKinds = {}
-  PoolN = 2
+  PoolN = 1
 INVARIANTS RescanOK CommentsOK GapsLegal TreeKept LShapesOK LExport
